@@ -122,4 +122,3 @@ func ruleTwinClauses(prog *Program, rep *Report, floor int, scope func(fd *ast.F
 		rep.Errorf("B-twins compared %d clause pairs (floor %d): anchors did not resolve", compared, floor)
 	}
 }
-
